@@ -124,7 +124,7 @@ class BilinearForm(Form):
             np.array([rows, cols]),
             data,
             (vbasis.N, ubasis.N),
-            (vbasis.Nbfun, ubasis.Nbfun),
+            (ubasis.Nbfun, vbasis.Nbfun),
         )
 
     def assemble(self, *args, **kwargs):
